@@ -37,6 +37,9 @@ pub const PROBES: &[&str] = &[
     "context_with_coordinates",
     "context_with_interval_bound",
     "long_stream_observed",
+    "direct_mapping_call",
+    "direct_mapping_in_gap",
+    "query_inside_leap_second",
     "next_change_none",
     "next_change_across_jump",
     "observer_zone_differs",
@@ -72,8 +75,9 @@ pub struct RunOut {
 
 
 
+/// total: a leap-second sub-second part (>= 1e9) is only representable in second 59; elsewhere it is folded back
 fn ndt(secs_: i64, nanos: u32) -> NaiveDateTime {
-    DateTime::<Utc>::from_timestamp(secs_, nanos).expect("instant in range").naive_utc()
+    DateTime::<Utc>::from_timestamp(secs_, nanos).or_else(|| DateTime::<Utc>::from_timestamp(secs_, nanos % 1_000_000_000)).expect("instant in range").naive_utc()
 }
 
 fn kind_code(k: RuleKind) -> u8 {
@@ -210,6 +214,44 @@ where
                     }
                 }
             }
+            Step::Map { local, nanos } => {
+                use opening_hours::localization::Localize;
+                let naive = ndt(*local, *nanos);
+                let r = simcore::catch(|| TzLocation::new(ctx_tz.clone()).datetime(naive));
+                w.probes.hit("direct_mapping_call");
+                let want_secs = spec.map_local(*local);
+                // does the wall-clock second exist? (then the sub-second part is kept; in a gap the answer is the
+                // first valid instant itself)
+                let exists = want_secs + spec.offset(want_secs) as i64 == *local;
+                let want = (want_secs, if exists { *nanos } else { 0 });
+                if !exists {
+                    w.probes.hit("direct_mapping_in_gap");
+                }
+                w.fp.i64(*local);
+                match r {
+                    Err(msg) if msg.starts_with("oracle:") => {
+                        out.harness_error = Some(msg);
+                        break;
+                    }
+                    Err(msg) => {
+                        out.fail = Some(Fail { class: "panic".into(), step: i, detail: format!("TzLocation::datetime({naive}) panicked: {msg}") });
+                        break;
+                    }
+                    Ok(dt) => {
+                        let got = (dt.timestamp(), dt.timestamp_subsec_nanos());
+                        w.fp.i64(got.0);
+                        if got != want || dt.timezone() != ctx_tz {
+                            w.fp.str("mapping_mismatch");
+                            out.fail = Some(Fail {
+                                class: "mapping_mismatch".into(),
+                                step: i,
+                                detail: format!("TzLocation::datetime({naive}) = utc {} (+{} ns), expected utc {} (+{} ns): {}", ndt(got.0, 0), got.1, ndt(want.0, 0), want.1, if exists { "the later instant with that wall-clock time" } else { "the first valid instant after the skipped time" }),
+                            });
+                            break;
+                        }
+                    }
+                }
+            }
             Step::Observe { .. } | Step::ObserveUntilJump { .. } => {
                 let (window, take) = match step {
                     Step::Observe { window, take } => (*window, *take),
@@ -274,13 +316,19 @@ where
     use chrono::Offset;
     let spec = w.spec;
     let u = now.0;
-    let dt_in: DateTime<Tz> = obs_tz.from_utc_datetime(&ndt(u, now.1));
     let off_u = spec.offset(u);
+    // a query inside a leap second needs second 59 both in UTC and on the context zone's wall clock (and, for the
+    // window end, one whole number of minutes later); otherwise the sub-second part is an ordinary one
+    let now = if now.1 >= 1_000_000_000 && !(u.rem_euclid(60) == 59 && (u + off_u as i64).rem_euclid(60) == 59 && window % 60 == 0 && (u + window + spec.offset(u + window) as i64).rem_euclid(60) == 59) { (now.0, now.1 % 1_000_000_000) } else { now };
+    let dt_in: DateTime<Tz> = obs_tz.from_utc_datetime(&ndt(u, now.1));
     let wall = ndt(u + off_u as i64, now.1);
     w.fp.i64(u);
     w.fp.u64(now.1 as u64);
     if now.1 != 0 {
         w.probes.hit("query_sub_second");
+    }
+    if now.1 >= 1_000_000_000 {
+        w.probes.hit("query_inside_leap_second");
     }
     if dt_in.offset().fix().local_minus_utc() < 0 {
         w.probes.hit("observer_offset_negative");
